@@ -314,22 +314,6 @@ impl System for IndSys {
 	}
 }
 
-fn scaled(c: &Candle, k: f64) -> Candle {
-	let k = k as ValueType;
-	Candle { open: c.open * k, high: c.high * k, low: c.low * k, close: c.close * k, volume: c.volume * k }
-}
-fn mixed_candles() -> Vec<Candle> {
-	let k = alpha::k_candles();
-	vec![scaled(&k[5], 0.001), k[5], scaled(&k[2], 3.73)]
-}
-fn mixed(k: InKind) -> Vec<In> {
-	match k {
-		InKind::Value => vec![In::V(0.001), In::V(1.7), In::V(37.3), In::V(0.33)],
-		InKind::Pair => vec![In::P(0.001, 1.7), In::P(37.3, 0.3), In::P(1.7, 11.1), In::P(0.33, 0.7)],
-		InKind::Candle => mixed_candles().into_iter().map(In::C).collect(),
-	}
-}
-
 fn main() {
 	let mut h = H::start("C09");
 	let thorough = h.thorough();
@@ -339,7 +323,7 @@ fn main() {
 		let sys = CloneSys { spec_name: name, params: small_params(&sp), alphabet: al[..3].to_vec(), peekable: sp.peekable, tag: "" };
 		h.go(&sys, &Limits::depth(if thorough { 7 } else { 5 }).wall_secs(300), true);
 		// rounding-active values of mixed magnitudes: any re-ordering of a summation shows in the last bit
-		let sys = CloneSys { spec_name: name, params: small_params(&sp), alphabet: mixed(sp.input), peekable: sp.peekable, tag: "/mixed-magnitudes" };
+		let sys = CloneSys { spec_name: name, params: small_params(&sp), alphabet: checks::grid::mixed(sp.input), peekable: sp.peekable, tag: "/mixed-magnitudes" };
 		h.go(&sys, &Limits::depth(if thorough { 8 } else { 6 }).wall_secs(300), true);
 	}
 	h.enum_replay("Methods/api", |_| None);
@@ -351,7 +335,7 @@ fn main() {
 	h.go(&IndSys { cfgs: defaults(), alphabet: ks[..3].to_vec(), maxlen: d, tag: "" }, &Limits::depth(d as u32).wall_secs(600), true);
 	// small periods (windows rotate within the depth) and candles of mixed magnitudes
 	let small: Vec<Box<dyn IndCfg>> = defaults().iter().flat_map(|c| checks::indcheck::indicator_configs(Some(c.const_name()), false).into_iter().skip(1)).collect();
-	h.go(&IndSys { cfgs: small, alphabet: mixed_candles(), maxlen: d + 2, tag: "/small-periods/mixed-magnitudes" }, &Limits::depth(d as u32 + 2).wall_secs(600), true);
+	h.go(&IndSys { cfgs: small, alphabet: checks::grid::mixed_candles(), maxlen: d + 2, tag: "/small-periods/mixed-magnitudes" }, &Limits::depth(d as u32 + 2).wall_secs(600), true);
 	h.run.assume("a twin instance driven by `next` only is the oracle; WithLastValue feeds the construction value once before the stream, so its outputs may equal either the plain twin's or those of a twin that was fed the construction value first (their agreement is C08)");
 	h.finish();
 }
